@@ -287,8 +287,8 @@ func runC10(c c10Case) Verdict {
 				if !goroutineShape && !(cmd.Polls == 0 && tries == 0) {
 					return failf("command %d (%s) has reported completion, but Next still returns ErrWaitingForCommandCompletion%s", i, cmd.Shape, ctx())
 				}
-				if tries > 5000 {
-					return failf("command %d (%s) was released but Next kept waiting for more than 5000 polls%s", i, cmd.Shape, ctx())
+				if tries > 100000 {
+					return failf("command %d (%s) was released but Next kept waiting for more than 100000 polls (20 s)%s", i, cmd.Shape, ctx())
 				}
 				time.Sleep(200 * time.Microsecond)
 			}
@@ -584,8 +584,8 @@ func runC10Restore(c c10RestoreCase) Verdict {
 			}
 			break
 		}
-		if tries > 5000 {
-			return failf("the released command never completed (history %v)", history)
+		if tries > 100000 {
+			return failf("the released command never completed within 100000 polls (history %v)", history[max(0, len(history)-5):])
 		}
 		time.Sleep(200 * time.Microsecond)
 	}
